@@ -99,6 +99,26 @@ func runConnack(cc connackCase) (viol string) {
 		if !cc.close && !w.Srv.EOF && w.Srv.ReadErr == "" {
 			vsched.Failf("after a refused Connect the client left its socket open")
 		}
+		if vsched.Failed() {
+			return
+		}
+		// the application tries again with the same client identifier and the server accepts:
+		// the failed attempt must not have left anything behind that stands in the way
+		w.ConnDone, w.ConnErr = false, nil
+		if w.StartConnect("cid", 60, 0) == nil {
+			return
+		}
+		w.Srv.Send(&refcodec.Packet{Type: refcodec.CONNACK})
+		w.Settle()
+		if !w.ConnDone || w.ConnErr != nil {
+			vsched.Failf("second attempt with the same client id after a failed one (%s): the server answered CONNACK code 0, Client.Connect: done=%v err=%v", cc.desc, w.ConnDone, w.ConnErr)
+			return
+		}
+		w.Cl.Ping(func(m, a message.Message, err error) error { return nil })
+		w.Settle()
+		if ps := w.Srv.Take(); len(ps) != 1 || ps[0].Type != refcodec.PINGREQ {
+			vsched.Failf("after the second, successful Connect a Ping does not reach the server: %s", Describe(ps))
+		}
 	}
 	res := explore.RunDefault(body)
 	if res.Status == vsched.StCrash {
